@@ -6,7 +6,7 @@ Driver for C04: reads cases produced by the Go harness (which compiled the expre
 operations = Lean `Float`, table/signatures = regenerated `Kap.C04.Gen`) and on the reference semantics
 (`Kap.C04.expect`, one history per group), and judges
   * the property itself on the OBSERVED answer (SPECFAIL, checked first; no recorded deviation is left: the clause for
-    `nested-lambda-state-shared` went with `fix:` dcda92d), and
+    `nested-lambda-state-shared` went with `fix:` 8ed14ac), and
   * observed = model (MISMATCH).
 -/
 import Kap.Spec.C04
